@@ -14,6 +14,7 @@ import (
 
 	"github.com/saucelabs/forwarder"
 	"github.com/saucelabs/forwarder/verifharness/lib"
+	"github.com/saucelabs/forwarder/verifharness/wiring"
 )
 
 type cred struct{ user, pass string }
@@ -44,13 +45,13 @@ type entry struct {
 }
 
 type conf struct {
-	idx      int
-	upKind   string // none | http | https | socks5 | pac
-	upHas    string // userinfo | table | both | none   (where the upstream credential lives)
-	upCred   cred
-	table    []entry
-	client   cred // what the client presents to this proxy
-	basic    bool // proxy demands the client credential
+	idx    int
+	upKind string // none | http | https | socks5 | pac
+	upHas  string // userinfo | table | both | none   (where the upstream credential lives)
+	upCred cred
+	table  []entry
+	client cred // what the client presents to this proxy
+	basic  bool // proxy demands the client credential
 
 	p       *lib.Proxy
 	origin  *lib.Origin
@@ -298,6 +299,7 @@ func main() {
 	run.Floor("client_authorization_preserved", 30)
 	run.Floor("upstream_requests_checked", 100)
 	run.Floor("tunnels_scanned", 20)
+	wiring.Run(run, "C06")
 	run.Finish()
 }
 
